@@ -87,6 +87,23 @@ def rule_drain(ctx, res, flag, queue):
         if got and not any(e[0] == 'call' and e[1] == H + 'start_lookup' for e in p.effects):
             okl = False
     res.check(okl, 'FLOW', b.path, 'each parked search is handed to the same start routine (no iteration of the drain skips its element)')
+    # .. and the taken collection reaches that loop as it was taken: nothing removes, merges or reorders its entries in between
+    touched = []
+    for p in s.paths:
+        for e in p.effects:
+            if e[0] != 'call' or not e[1] or e[1].split('::')[-1] in ('next', 'into_iter', 'iter', 'take', 'drain', 'len', 'is_empty'):
+                continue
+            for a in e[2]:
+                if not (isinstance(a, tuple) and a and a[0] == 'ref' and len(a) > 2 and a[2]):
+                    continue
+                tgt = a[1]
+                while isinstance(tgt, tuple) and tgt and tgt[0] in ('ref', 'deref'):
+                    tgt = tgt[1]
+                # a `&mut` to the taken collection itself (not to something merely computed from one of its elements)
+                if isinstance(tgt, tuple) and tgt and tgt[0] == 'call' and tgt[1] and (tgt[1].endswith('mem::take') or tgt[1].endswith('::drain')) \
+                        and tgt[2] and is_field_of_param(tgt[2][0], 'self', queue):
+                    touched.append(e[1].split('::')[-1])
+    res.check(not touched, 'FLOW', b.path, 'the parked searches are started as taken: no entry is dropped, merged or filtered before the drain loop', detail=str(sorted(set(touched))), key='drain-untouched')
     # a started element of the drain loop is not silently skipped: the loop body has no other exit
     # sticky flag
     ws = ctx.field_writes(r'^handler::DhtHandler$', flag)
